@@ -2,6 +2,7 @@
   C11 — At most one block per type; presence, count and lookup agree with content.
 -/
 import TdfProofs.Lemmas.Layout
+import TdfProofs.Lemmas.Foreign
 namespace Tdf.C11
 
 /-- after any history no two live entries share a type (executable form, run on real bytes too) -/
@@ -86,5 +87,15 @@ theorem lookup_by_index (s : TdfSt) (i : Int) :
     (0 ≤ i ∧ i.toNat < s.entries.length → entryByIndex s i = s.entries[i.toNat]?) ∧
     (¬ (0 ≤ i ∧ i.toNat < s.entries.length) → entryByIndex s i = none) := by
   constructor <;> intro h <;> simp [entryByIndex, h]
+
+
+/-- FOREIGN FILES, table level (`_partial`): on ANY table — any order of the entries, gaps, unused slots anywhere — "at most one block per
+    type" is an invariant of every finite mix of accepted and refused add / remove / replace / setter calls: a table that starts with
+    distinct live types never comes to hold two live entries of one type. (Table the object holds; that the table on disk is this one
+    is the byte level, covered on foreign files by the correspondence and `typesNodupB` on the real bytes.) -/
+theorem foreign_types_nodup_partial (s : TdfSt) (ops : List Op) (hops : ∀ op ∈ ops, TableOp op)
+    (h : ((liveOf s.entries).map (·.typ)).Nodup) :
+    ((liveOf (runOps s ops).entries).map (·.typ)).Nodup :=
+  history_keeps_typesNodup s ops hops h
 
 end Tdf.C11
